@@ -30,6 +30,8 @@ def rewrite(h, mapping):
     # a PEP 695 alias is transparent: it stands for its value, occurrences inside it count
     TAT = getattr(typing, 'TypeAliasType', None)
     if TAT is not None and isinstance(h, TAT):
+        if refsem._mentions_alias(h.__value__, h):
+            return h                      # recursive alias: opaque to the hand rewriter (such hints are not C18 cases)
         return rewrite(h.__value__, mapping)
     origin = typing.get_origin(h)
     if origin is None:
@@ -97,6 +99,8 @@ def cases(tier, seed):
         for name, h in hs:
             if not any(_mentions(h, key) for key in keys):
                 continue
+            if 'ARec' in name:
+                continue        # recursive alias: the hand rewriter does not unroll it
             if 'UIntList' in name or 'UTagged' in name:
                 # UIntList(List[int]) / UTagged(UGenList[str], ...) carry an item hint in the class definition, not in the hint as
                 # written; beartype applies overrides there too (same situation as Counter below)
@@ -139,7 +143,7 @@ def _mentions(h, target):
         return False
     TAT = getattr(typing, 'TypeAliasType', None)
     if TAT is not None and isinstance(h, TAT):
-        return _mentions(h.__value__, target)
+        return False if refsem._mentions_alias(h.__value__, h) else _mentions(h.__value__, target)
     if TAT is not None and isinstance(typing.get_origin(h), TAT):
         return _mentions(typing.get_origin(h).__value__, target) or any(_mentions(a, target) for a in typing.get_args(h))
     return any(_mentions(a, target) for a in typing.get_args(h) if a is not Ellipsis and not isinstance(a, list))
